@@ -216,9 +216,9 @@ package idl
 //@   ensures [err C06] result1 != nil ==> result0 == nil
 //@   assert [tok-name C05] at call(readInterfaceName)#1 : tokenStart(p)
 //@   assert [tok-member C05] at call(readKeyword)#2 : tokenStart(p)
-//@   assert [new-alias C06] at mapupdate#1 : !has(members, a.Name) && key == a.Name
-//@   assert [new-method C06] at mapupdate#2 : !has(members, m.Name) && key == m.Name
-//@   assert [new-error C06] at mapupdate#3 : !has(members, e.Name) && key == e.Name
+//@   assert [new-alias C06] at mapupdate(members[a.Name])#1 : !has(members, a.Name) && key == a.Name
+//@   assert [new-method C06] at mapupdate(members[m.Name])#1 : !has(members, m.Name) && key == m.Name
+//@   assert [new-error C06] at mapupdate(members[e.Name])#1 : !has(members, e.Name) && key == e.Name
 //@   assert [app-alias C05 C06] at call(append)#1 : arg0 == idl.Aliases
 //@   assert [app-method C05 C06] at call(append)#3 : arg0 == idl.Methods
 //@   assert [app-error C05 C06] at call(append)#5 : arg0 == idl.Errors
